@@ -22,6 +22,7 @@ func init() {
 	vfRegister("VfC14_twoFaults", VfC14_twoFaults)
 	vfRegister("VfC14_endedThenQueue", VfC14_endedThenQueue)
 	vfRegister("VfC14_resetCloseError", VfC14_resetCloseError)
+	vfRegister("VfC14_idleFault", VfC14_idleFault)
 }
 
 // vfCStream is a scripted Modify client stream played by a tiny conformant
@@ -452,5 +453,44 @@ func VfC14_resetCloseError() {
 	c.Q(vfCOpN(100))
 	vfAssert(c.AwaitConverged(ctx) == nil, "C14:exchange-after-reconnect-converges")
 	vfAssert(c.Close() == nil, "C14:final-close-returns")
+	vfReach("end")
+}
+
+// VfC14_idleFault: the fault arrives when NOTHING is outstanding - after the handshake and k answered operations
+// the receive side fails with a status error.  The queues are empty, so "converged" and "failed" compete:
+// the error is recorded, AwaitConverged returns it instead of reporting convergence, Done is signalled, Close returns.
+func VfC14_idleFault() {
+	st := vfNewCStream()
+	k := vfInt("answered-before-fault", 0, 2)
+	st.recvFailAfter = 2 + k // handshake: session parameters + election id
+	st.err = []error{status.Error(codes.Unavailable, "transport is closing"), status.Error(codes.Aborted, "aborted"), status.Error(codes.Internal, "stream terminated")}[vfInt("fault.status", 0, 2)]
+	stub := &vfCStub{streams: []*vfCStream{st}}
+	c, err := New(ElectedPrimaryClient(&spb.Uint128{Low: 1}), PersistEntries())
+	if err != nil {
+		panic(err)
+	}
+	c.UseStub(stub)
+	ctx := context.Background()
+	if err := c.Connect(ctx); err != nil {
+		panic(err)
+	}
+	c.StartSending()
+	for i := 0; i < k; i++ {
+		c.Q(vfCOpN(uint64(i + 1)))
+	}
+	vfSettleC()
+	vfReach("idle")
+	se, re := c.hasErrors()
+	vfAssert(len(se)+len(re) > 0, "C14:stream-error-recorded")
+	p, _ := c.Pending()
+	vfAssert(len(p) == 0, "C14:idle-fault-nothing-outstanding") // harness sanity: the fault really came after the last answer
+	vfAssert(c.AwaitConverged(ctx) != nil, "C14:await-converged-returns-the-error")
+	select {
+	case <-c.Done():
+		vfReach("done-signalled")
+	default:
+		vfAssert(false, "C14:done-is-signalled")
+	}
+	vfAssert(c.Close() == nil, "C14:close-returns")
 	vfReach("end")
 }
